@@ -165,6 +165,11 @@ func renderTokens(toks []Tok, fill bool, lo layout) rendered {
 			afterDescription = false
 			continue
 		}
+		if t.T == "X" { // a line the scanner rejects: a comment that holds a NUL byte
+			wr("# x\x00")
+			afterDescription = false
+			continue
+		}
 		if t.T == "O" { // a "(" beyond the one of the directive's flag
 			wr("(" + lo.trailing)
 			afterDescription = false
